@@ -305,7 +305,7 @@ def r4_shape_plumbing(ctx):
         if not flat and not keep:
             raise Unrecognised(f"{f.where}: decode passes `{u(arg)}` to _decode")
         ctx.ob(f.where, "decode of a non-ragged operand keeps the operand's shape: the codes go to the element-wise _decode as they are, not flattened", keep and not flat,
-               u(e)[:100], key=f"C06-R4|decode-shape|{u(arg)}")
+               u(e)[:100], key=f"C06-R4|decode-shape|{u(arg)}", definite=True)
     ctx.floor("non-ragged returns of OneToOneEncoding.decode", nflat, 3)
     f = ix.func(EA_MOD, "OneToOneEncoding._encode_list_of_strings")
     p = f.params[1]
@@ -431,7 +431,7 @@ def r6_encoding_identity(ctx):
                   and any(isinstance(r, ast.Return) and isinstance(r.value, ast.Constant) and r.value.value is False for r in t.body)]
             lg2 = [t for t in body_walk(eq.node) if isinstance(t, ast.If) and sym.canon(t.test) == sym.canon(sym.parse_expr(f"self._alphabet_size != {o}._alphabet_size"))
                    and any(isinstance(r, ast.Return) and isinstance(r.value, ast.Constant) and r.value.value is False for r in t.body)]
-            ctx.ob(eq.where, "alphabets of different length are unequal (decided before the element-wise comparison, which would broadcast or stop at the shorter one)", bool(lg or lg2), u(v), key="C06-R6|eq-length")
+            ctx.ob(eq.where, "alphabets of different length are unequal (decided before the element-wise comparison, which would broadcast or stop at the shorter one)", bool(lg or lg2), u(v), key="C06-R6|eq-length", definite=True)
     elif tables and tables <= {"_mask"}:
         ok = False
     elif attr == "_alphabet_size":
@@ -439,7 +439,7 @@ def r6_encoding_identity(ctx):
     else:
         raise Unrecognised(f"{eq.where}: equality of alphabet encodings is decided by `{u(v)}`")
     ctx.ob(eq.where, "two alphabet encodings are equal only if they assign the same code to every letter (same letters in the same order); the table of accepted "
-           "bytes is the same for permuted alphabets and cannot decide it", ok, u(v), key="C06-R6|eq-ordered")
+           "bytes is the same for permuted alphabets and cannot decide it", ok, u(v), key="C06-R6|eq-ordered", definite=True)
     if ok and ORDERED.get(attr):
         inits = [e for e in body_walk(eq.node) if isinstance(e, ast.Expr) and isinstance(e.value, ast.Call) and u(e.value.func).endswith("._initialize")]
         ctx.ob(eq.where, "both encodings are initialised before their tables are compared", {u(e.value.func) for e in inits} >= {"self._initialize", f"{o}._initialize"}, "", key="C06-R6|eq-init")
@@ -455,7 +455,7 @@ def r6_encoding_identity(ctx):
                     facts |= _ef(t, lab)
             if (f"isinstance({o}, AlphabetEncoding)", False) in facts:
                 okt = True
-    ctx.ob(eq.where, "an alphabet encoding never equals a non-alphabet encoding", okt, "", key="C06-R6|eq-type")
+    ctx.ob(eq.where, "an alphabet encoding never equals a non-alphabet encoding", okt, "", key="C06-R6|eq-type", definite=True)
     f = ix.func(EA_MOD, "_list_of_encoded_arrays_as_encoded_ragged_array")
     lst = f.params[0]
     env = local_env(f.node)
@@ -473,7 +473,7 @@ def r6_encoding_identity(ctx):
     var = u(ge.generators[0].target)
     okc = sym.canon(ge.elt, env) == sym.canon(sym.parse_expr(f"{var}.encoding == {lst}[0].encoding"))
     ctx.ob(f.where, "a list of encoded arrays is accepted only if EVERY element has the encoding the result is labelled with", quant[0] == "all" and okc and not ge.generators[0].ifs and len(ge.generators) == 1 and u(ge.generators[0].iter) == lst,
-           u(ge), key="C06-R6|list-all-same")
+           u(ge), key="C06-R6|list-all-same", definite=True)
     def seq_env(stmts, env0):
         e = dict(env0)
         for st in stmts:
